@@ -13,7 +13,6 @@ import (
 	"github.com/libsv/go-bt/v2"
 	"github.com/libsv/go-bt/v2/bscript"
 	"github.com/libsv/go-bt/v2/bscript/interpreter"
-	"github.com/libsv/go-bt/v2/bscript/interpreter/scriptflag"
 	"pgregory.net/rapid"
 
 	"verif/harness/interp"
@@ -80,7 +79,7 @@ func check(ctx *pbt.Ctx, c Case) error {
 	otherExtBefore := append([]byte{}, other.Bytes(false)...)
 	otherPrevBefore := append([]byte{}, *other.PreviousTxScript...)
 	rec := &libexec.Recorder{}
-	opts := []interpreter.ExecutionOptionFunc{interpreter.WithFlags(scriptflag.Flag(flags)), interpreter.WithDebugger(rec)}
+	opts := append(libexec.FlagOpts(flags, len(c.Lock)+len(c.Unlock)), interpreter.WithDebugger(rec))
 	if c.Invoke == 1 {
 		unlockObj = bscript.NewFromBytes(append([]byte{}, c.Unlock...))
 		opts = append(opts, interpreter.WithScripts(lockObj, unlockObj))
